@@ -1978,8 +1978,12 @@ class Engine:
 
     # ----------------------------------------------------------------- solving
     # z3 option sets tried in order until one of them decides the query (a portfolio; each is sound); "_timeout_ms" overrides the budget
-    solver_opts = ({}, {"auto_config": False})
-    PORTFOLIO_SHORT_FIRST = ({"auto_config": False, "_timeout_ms": 1500}, {"_timeout_ms": 1500}, {"auto_config": False}, {})
+    # short budgets first, under both configurations (either one can be the one that proves an obligation in milliseconds while the other times out)
+    # (smt.arith.solver=2 is the simplex solver z3 4.8 used by default: some obligations with case splits over integer terms are proved by it in milliseconds
+    #  and time out with the newer default)
+    PORTFOLIO_SHORT_FIRST = ({"auto_config": False, "_timeout_ms": 1500}, {"_timeout_ms": 1500}, {"smt.arith.solver": 2, "_timeout_ms": 1500},
+                             {"auto_config": False}, {}, {"smt.arith.solver": 2})
+    solver_opts = PORTFOLIO_SHORT_FIRST
 
     def solve(self, ob, extra_axioms=()):
         t0 = time.time()
@@ -1990,7 +1994,7 @@ class Engine:
         if ob.axioms is None and nax is not None and nax < len(self.axioms):
             # first with the axioms that existed when the obligation was generated (what later code added is irrelevant to it in
             # almost every case), each option set with a short budget; then the full portfolio on all axioms
-            attempts += [(self.axioms[:nax], dict(o_, _timeout_ms=min(int(o_.get("_timeout_ms", self.timeout_ms)), 2500))) for o_ in self.solver_opts[:2]]
+            attempts += [(self.axioms[:nax], dict(o_, _timeout_ms=min(int(o_.get("_timeout_ms", self.timeout_ms)), 2500))) for o_ in self.solver_opts[:3] if "_timeout_ms" in o_]
         attempts += [((self.axioms if ob.axioms is None else ob.axioms), o_) for o_ in self.solver_opts]
         for axs, opts in attempts:
             if trivially_false:
